@@ -31,6 +31,13 @@ Proof. exact forced_check_sound. Qed.
    or skip according to the child's ending (runtime.rs return_to_act) -- is admitted, the calling act takes the state
    the ending maps to and keeps it whatever happens next, and every later action on it but cancel, a second return
    included, is rejected: the act is closed exactly once *)
+(* a calling act that catches the error of its child: an accepted observation shows the act written error no earlier than the
+   child's ending, then completed, each once, and not left open (the handler ran and the flow goes on) *)
+Theorem C15_caught_child_error_completes_the_act :
+  forall o, caught_check o = [] ->
+  co_inputs_ok o = true /\ exists t t1 t2, co_child_end o = Some (SError, t) /\ co_act_ends o = [(SError, t1); (SCompleted, t2)] /\
+                                          (t <= t1)%Z /\ (t1 <= t2)%Z /\ co_act_open o = false.
+Proof. exact caught_check_sound. Qed.
 Theorem C15_return_closes_the_act_for_good :
   forall e i s code opts cv a' ops b opts',
     J e -> s <> SError -> admission e i (return_action s code) opts = Some (cv, a') -> is_cancel b = false ->
@@ -66,3 +73,4 @@ Print Assumptions C15_return_end_is_the_mapping.
 Print Assumptions C15_missing_model_fails_the_act.
 Print Assumptions C15_return_mapping.
 Print Assumptions C15_expected_end.
+Print Assumptions C15_caught_child_error_completes_the_act.
